@@ -58,8 +58,13 @@ def r1_r2_fits(ctx):
                         ok = True if copied else None
                     elif [canon(s) for s in srcs] in ([canon(w) for w in want[::-1]], [canon(w) for w in alt[::-1]]):
                         ok = False
+                why = "the force coordinates are the data coordinates in reversed (northing, easting) order"
+                if fc is None and store.endswith("_") and len(j[2]) >= 2 and j[2][1] == Q.self_attr(store):
+                    # no forces were configured, none are derived from this data on this path, and the Jacobian is built on the
+                    # fitted attribute: these are the forces of an EARLIER fit, so the spline does not interpolate the new data
+                    ok, why = False, "on this path self.%s is not set from the data given to fit but read back from a previous fit: a refit on other data keeps the old force positions" % store
                 ctx.check("R1", "%s|forces-at-data-points|%s" % (qn, tag), ok, "the force coordinates are copies of the raveled (easting, northing) data coordinates",
-                          bad="the force coordinates are the data coordinates in reversed (northing, easting) order", fn=qn, undecided="force coordinates are %s" % (show(fc)[:80] if fc else None))
+                          bad=why, fn=qn, undecided="force coordinates are %s" % (show(fc)[:80] if fc else None))
                 forces = fc
             else:
                 forces = Q.self_attr("force_coords")
